@@ -62,6 +62,9 @@ class Sched:
         self.lock_handovers = 0
         self.net_waits = 0
         self.ops_applied = 0
+        self.in_load = [0] * self.n   # depth inside the public load step
+        self.ops_pending = 0
+        self.ops_deferred = 0
         self.remaining = None  # events left in the current 'T' segment
         self.calls_remaining = None  # calls left in the current 'C' segment
 
@@ -82,15 +85,16 @@ class Sched:
                 if not rest:
                     if not all(self.done):
                         self.deadlock = True
+                    else:
+                        self._apply_pending_ops(force=True)
                     return None
                 self.plan.append(['T', rest[0], None])
             s = self.plan[self.seg]
             if s[0] == 'OP':
-                if self.op_fn is not None:
-                    if self.op_fn():
-                        self.ops_applied += 1
-                        self.log.append(('OP', self.ops_applied, 'op', None))
+                self.ops_pending += 1
+                self._apply_pending_ops()
                 continue
+            self._apply_pending_ops()
             w = s[1]
             if not self._runnable(w):
                 continue
@@ -119,6 +123,24 @@ class Sched:
             if self.calls_remaining <= 0:
                 self.calls_remaining = None
                 self._handover(i, 'call')
+
+    def _apply_pending_ops(self, force=False):
+        """Operator edits land only while no worker is inside the public
+        load step: a reload reads several files one after the other, and an
+        edit in the middle of that would be a torn read of the disk (an
+        operator-versus-reload race, which the properties do not regulate),
+        not a thread interleaving. A deferred edit lands at the next segment
+        boundary at which every worker is outside load_rules, at the latest
+        when all workers have finished."""
+        while self.ops_pending and self.op_fn is not None and (
+                force or not any(self.in_load[i] > 0 and not self.done[i]
+                                 for i in range(self.n))):
+            self.ops_pending -= 1
+            if self.op_fn():
+                self.ops_applied += 1
+                self.log.append(('OP', self.ops_applied, 'op', None))
+        if self.ops_pending and self.op_fn is not None:
+            self.ops_deferred += 1
 
     def _handover(self, me, why, pos=None):
         """Called by worker `me` holding the baton: pick the next worker,
@@ -155,6 +177,10 @@ class Sched:
         sched = self
 
         def local(frame, event, arg):
+            if event == 'return':
+                if frame.f_code.co_name == 'load_rules':
+                    sched.in_load[i] -= 1
+                return local
             if event == 'line' or event == 'opcode':
                 if opcodes and event == 'line':
                     return local
@@ -173,6 +199,8 @@ class Sched:
         def glob(frame, event, arg):
             fn = frame.f_code.co_filename
             if fn.startswith(lib) and not fn.startswith(tests):
+                if frame.f_code.co_name == 'load_rules':
+                    sched.in_load[i] += 1
                 if opcodes:
                     frame.f_trace_opcodes = True
                 return local
